@@ -67,6 +67,12 @@ def cond_atoms(ctx, c, pol=True, subst=None):
                     return [("ncmp", op, a, b)]
                 op = NEG[op]
             return [norm_cmp(op, a, b, overloaded=c.get("fn"))]
+    if k == "Local" and subst is None:
+        # a named condition: `let bad = a || b; if bad {..}`  (immutable, nothing it reads changes in between)
+        b = ctx.binds.get(c["v"])
+        if b is not None and b.kind == "let" and not b.mut and b.init is not None and not b.proj and b.v not in ctx.addr_mut:
+            if ctx._let_inlinable(b, ctx.term(b.init), c):
+                return cond_atoms(ctx, b.init, pol, subst)
     t = ctx.term(c, subst)
     return [("bool", t, pol)]
 
@@ -167,11 +173,52 @@ def for_range(ctx, fornode):
     if it.get("k") != "Range":
         return None
     pat = fornode["pat"]
+    hi = _collapse_min(ctx, ctx.term(it["hi"]), fornode)
     if pat.get("k") == "Wild":
-        return (("wild", fornode.get("id")), ctx.term(it["lo"]), ctx.term(it["hi"]), bool(it.get("incl")), rev)
+        return (("wild", fornode.get("id")), ctx.term(it["lo"]), hi, bool(it.get("incl")), rev)
     if pat.get("k") != "Bind":
         return None
-    return (("var", pat["v"]), ctx.term(it["lo"]), ctx.term(it["hi"]), bool(it.get("incl")), rev)
+    return (("var", pat["v"]), ctx.term(it["lo"]), hi, bool(it.get("incl")), rev)
+
+
+_cm_busy = set()
+
+
+def _known_len(ctx, t):
+    """len(v) for a local `let [mut] v = vec![x; n]` that is only ever written element-wise is n."""
+    if t[0] == "len" and t[1][0] == "var":
+        b = ctx.binds.get(t[1][1])
+        if b is not None and b.kind == "let" and b.init is not None and not b.proj:
+            it = ctx.term(b.init)
+            if it[0] == "call" and str(it[1]).endswith("from_elem") and len(it) == 4:
+                if all(kind == ((), "elem") for kind, _ in ctx.mutations.get(t[1], [])):
+                    return it[3]
+    return t
+
+
+def _collapse_min(ctx, hi, fornode):
+    """min(a, b) is a when a guard in force at the loop establishes a == b (zip of two equally long containers)."""
+    if not (hi[0] == "call" and str(hi[1]).endswith("::min") and len(hi) == 4):
+        return hi
+    key = id(fornode)
+    if key in _cm_busy:
+        return hi
+    _cm_busy.add(key)
+    try:
+        a, b = _collapse_min(ctx, hi[2], fornode), _collapse_min(ctx, hi[3], fornode)
+        if a == b:
+            return a
+        # constant difference (lengths of locals built by vec![x; n] and only written element-wise are n)
+        ra, rb = _known_len(ctx, a), _known_len(ctx, b)
+        dc, da = lin_parts(lin_sub(ra, rb))
+        if not da:
+            return a if dc <= 0 else b
+        for f in facts(ctx, fornode):
+            if f[0] == "cmp" and f[1] == "==" and {f[2], f[3]} == {a, b}:
+                return a
+        return ("call", hi[1], a, b)
+    finally:
+        _cm_busy.discard(key)
 
 
 def for_facts(ctx, fornode):
@@ -310,6 +357,10 @@ def _stable(ctx, f, origin, node):
         for kind, a in ctx.mutations.get(root, []):
             if not _affected(f, root, kind):
                 continue
+            if ctx.disjoint_write(fact_terms(f), root, a):
+                continue
+            if _in_exiting_branch(a, node):
+                continue
             ap = _pos(a)
             own_rhs = a.get("k") in ("Assign", "AssignOp") and _is_ancestor(a, node)
             if op <= ap < np_ and not own_rhs:
@@ -327,6 +378,33 @@ def _stable(ctx, f, origin, node):
                     if id(L) in a_anc:
                         return False
     return True
+
+
+def leaves_function(blk):
+    """The block never falls through and never continues the enclosing loop: it ends in `return` or a panic."""
+    if not diverges(blk):
+        return False
+    stack = [blk]
+    while stack:
+        x = stack.pop()
+        k = x.get("k")
+        if k in ("Break", "Continue"):
+            return False
+        if k in ("Closure", "For", "While", "Loop"):
+            continue
+        stack.extend(children(x))
+    return True
+
+
+def _in_exiting_branch(a, node):
+    """Mutation a sits in an if-branch that leaves the function and does not contain `node`: it is on no path to node."""
+    child = a
+    for p in ancestors(a):
+        if p.get("k") == "If" and (child is p.get("then") or child is p.get("else")):
+            if leaves_function(child) and not _is_ancestor(child, node) and child is not node:
+                return True
+        child = p
+    return False
 
 
 def _is_ancestor(p, n):
